@@ -350,15 +350,18 @@ def order_hint(topo, op):
     """the order in which the implementation is about to walk the interface list of the element a removal call
     names (Python set iteration order -- not determined by the snapshot): the same expression the code evaluates,
     evaluated on the same state right before the call"""
+    def flat(ifl):
+        # Topology._disconnect_from_services walks each interface followed by its sub-interfaces
+        return [ii.node_id for i in ifl for ii in (i,) + tuple(i.interface_list)]
     try:
         kind, a = op[1], op[2:]
         if kind in ('remove_node', 'remove_switch'):
-            return [i.node_id for i in topo.nodes[a[0]].interface_list]
+            return flat(topo.nodes[a[0]].interface_list)
         if kind == 'remove_facility':
-            return [i.node_id for i in topo.facilities[a[0]].interface_list]
+            return flat(topo.facilities[a[0]].interface_list)
         if kind == 'remove_component':
             n = Resolver(topo).elem(['node', a[0]])
-            return [i.node_id for i in n.components[a[1]].interface_list]
+            return flat(n.components[a[1]].interface_list)
     except Exception:
         pass
     return []
